@@ -1,6 +1,9 @@
 (* Finite obligation of C20: every record type and syscall named in the built-in
    normalisation table is one the parser can produce. *)
-From Coq Require Import List String.
-Require Import Bytes Tables.
-Lemma norm_record_types_ok : bad_norm_record_types = nil. Proof. vm_compute. reflexivity. Qed.
-Lemma norm_syscalls_ok : bad_norm_syscalls = nil. Proof. vm_compute. reflexivity. Qed.
+From Coq Require Import List String Bool.
+Require Import Bytes Tables Norms.
+Import ListNotations.
+Lemma norm_record_types_ok : filter (fun rt => negb (record_type_producible rt)) norm_record_type_names = [].
+Proof. by_vm. Qed.
+Lemma norm_syscalls_ok : filter (fun sc => negb (syscall_producible sc)) norm_syscalls = [].
+Proof. by_vm. Qed.
